@@ -88,6 +88,7 @@ func createAndObserve(lg *tracelog.Log, dir string, names []string, datas [][]by
 
 func runC05(args []string) error {
 	c := newCommon("c05")
+	mode := c.fs.String("mode", "full", "full | procs (a few sets with large coding matrices, run under several GOMAXPROCS values: what Create writes must not depend on it)")
 	c.fs.Parse(args)
 	lg, err := tracelog.Create(c.out)
 	if err != nil {
@@ -137,6 +138,25 @@ func runC05(args []string) error {
 	budget := 600000
 	if thorough {
 		budget = 5000000
+	}
+	if *mode == "procs" {
+		// large coding matrices (slices x blocks >= 16384 elements) with block counts that no small worker count divides
+		for i, r := range []int{7, 20, 33, 101} {
+			sl := 4
+			nsl := 2100 + rng.Intn(400)
+			if i%2 == 1 {
+				sl, nsl = 8, 900+rng.Intn(200)
+			}
+			d1 := make([]byte, sl*(nsl/2)-1)
+			d2 := make([]byte, sl*(nsl-nsl/2))
+			rng.Read(d1)
+			rng.Read(d2)
+			g := []int{1, 2, 5, 16}[i%4]
+			if err := createAndObserve(lg, dir, []string{"p.bin", "q/r.bin"}, [][]byte{d1, d2}, sl, r, g, fmt.Sprintf("procs %d", i), nil, budget/2); err != nil {
+				return err
+			}
+		}
+		return nil
 	}
 	n := 24
 	if thorough {
